@@ -6,7 +6,7 @@ from sa.astq import ev_setattr, ev_hook, ev_notify, norm_text
 from sa.idioms import (guarded, call_consumed, is_discarded, reach_under, combine,
                        attr_truth, edges_requiring)
 from sa.raises import Escapes
-from sa.project import dotted
+from sa.project import dotted, walk_local
 
 EXPLANATION = (    "Bookkeeping shape decided on CFG/call graph: R1 in spawn_process the new "
     "child is put into the process table before any hook, event, yield or "
@@ -131,6 +131,18 @@ def _kill_result_names(ctx, f):
             for t in s.node.ast.targets:
                 if isinstance(t, ast.Name):
                     names.add(t.id)
+    # ... and the names that stand for one element of such a list:
+    # for r in results / for p, r in zip(procs, results)
+    for n in walk_local(f.node):
+        if isinstance(n, (ast.For, ast.comprehension)):
+            it, tg = n.iter, n.target
+            if isinstance(it, ast.Name) and it.id in names and isinstance(tg, ast.Name):
+                names.add(tg.id)
+            if isinstance(it, ast.Call) and dotted(it.func) == 'zip' and \
+                    isinstance(tg, ast.Tuple) and len(tg.elts) == len(it.args):
+                for a, t in zip(it.args, tg.elts):
+                    if isinstance(a, ast.Name) and a.id in names and isinstance(t, ast.Name):
+                        names.add(t.id)
     return names
 
 
